@@ -65,6 +65,9 @@ ROOTS = [
     ('expo_m2', _make_expo(-2.0), N('sub', N('exp', N('mul', C(-2.0), V(1))), V(2)), N('mul', C(-0.5), N('log', V(1))), [0.4], 0.5),
     ('gauss', lambda x, d: anp.exp(-x ** 2) - d, N('sub', N('exp', N('neg', N('pow', V(1), C(2)))), V(2)), N('sqrt', N('neg', N('log', V(1)))), [0.45], 0.8),
     ('tanh', lambda x, d: anp.tanh(x) - d, N('sub', N('tanh', V(1)), V(2)), N('arctanh', V(1)), [0.55], 0.5),
+    # the default starting point (no guess given), the root on the other side of it where the function saturates
+    ('tanh_neg', lambda x, d: anp.tanh(x) - d, N('sub', N('tanh', V(1)), V(2)), N('arctanh', V(1)), [-0.7], None),
+    ('tanh_hi', lambda x, d: anp.tanh(x) - d, N('sub', N('tanh', V(1)), V(2)), N('arctanh', V(1)), [0.85], None),
     ('cubic', lambda x, d: x ** 3 + x - d, N('sub', N('add', N('pow', V(1), C(3)), V(1)), V(2)), None, [3.1], 1.0),
     ('explog', lambda x, d: anp.log(x) + x - d, N('sub', N('add', N('log', V(1)), V(1)), V(2)), None, [1.8], 1.0),
     ('ratio2', lambda x, d: d[0] * x - d[1], N('sub', N('mul', V(2), V(1)), V(3)), N('div', V(2), V(1)), [1.4, 2.5], 1.0),
@@ -83,7 +86,7 @@ def root_cases(rng, ctx, reps):
             if rng.random() < 0.25:
                 ds[-1] = pe.cov_Obs(dvals[-1], (0.02 * dvals[-1]) ** 2, 'droot')
             arg = ds[0] if len(ds) == 1 else ds
-            res = _call(lambda: pe.roots.find_root(arg, f, guess=guess))
+            res = _call(lambda: pe.roots.find_root(arg, f, guess=guess) if guess is not None else pe.roots.find_root(arg, f))
             c = {'id': 'root-%d-%s-%s' % (rep, name, cls), 'ev': 'root', 'mode': 'root', 'f': gen.strip(fe), 'ops': [project_obs(o) for o in ds], 'res': res}
             if inv is not None:
                 c['inv'] = gen.strip(inv)
